@@ -71,7 +71,7 @@ def programs(tier, rnd: random.Random):
 
 SPEC = semprop.Spec(
     prop="C09", programs=programs, oracles=("diff", "wf"),
-    theorems=["C09_refuted_literal_compare", "C09_refuted_literal_type", "C09_refuted_dead_arm_removes_live_declaration", "C09_refuted",
+    theorems=["C09_literal_suffix_table_is_the_compilers", "C09_refuted_literal_compare", "C09_refuted_literal_type", "C09_refuted_dead_arm_removes_live_declaration", "C09_refuted",
               "C09_repaired_witnesses", "C09_literal_typing_repaired"],
     note="literal spellings around the type boundaries x suffixes x foldable operators; constant ?: conditions; dead arms that "
          "mention registers/immediates/locals/calls/statement-expressions used elsewhere; inexact/zero division",
